@@ -21,6 +21,15 @@ Proof. intros d [A [B C]]. repeat split; assumption. Qed.
 Lemma wf_set_meaning : forall m d, wf_concept d -> wf_concept (set_meaning m d).
 Proof. intros m d [A [B C]]. repeat split; try assumption. cbn. discriminate. Qed.
 
+Lemma wf_set_code : forall k v d, wf_concept d -> wf_concept (set_code k v d).
+Proof. intros k v d [A [B C]]. split; [destruct k; reflexivity | split; assumption]. Qed.
+
+Lemma wf_set_scheme : forall s d, wf_concept d -> wf_concept (set_scheme s d).
+Proof. intros s d [A [B C]]. repeat split; try assumption. cbn. discriminate. Qed.
+
+Lemma wf_set_version : forall ver d, wf_concept d -> wf_concept (set_version ver d).
+Proof. intros ver d [A [B C]]. repeat split; assumption. Qed.
+
 Lemma init_wf : forall v s m ver d, init v s m ver = Ok d -> wf_concept d.
 Proof. intros v s m ver d H. apply (init_view (Code v s m ver) d H). Qed.
 
@@ -222,7 +231,8 @@ Qed.
 
 Lemma step_inv : forall srt st o, Inv (fst st) -> Inv (fst (fst (step srt st o))).
 Proof.
-  intros srt [h kids] o I. cbn [fst] in I. destruct o as [v s m ver|x|x copy|d nested|a m|a m|a b]; cbn [step].
+  intros srt [h kids] o I. cbn [fst] in I.
+  destruct o as [v s m ver|x|x copy|d nested|a m|a m|a b|a k v|a s|a ver|a|a|a b]; cbn [step].
   - destruct (init v s m ver) as [d|k] eqn:E; cbn [fst]; [|exact I].
     apply Forall_app. split; [exact I|]. constructor; [|constructor]. intros _. eapply init_wf; eauto.
   - destruct x as [c|a].
@@ -245,6 +255,21 @@ Proof.
   - destruct (kid_of kids a) as [c|]; [|exact I].
     destruct (nth_error h c) as [d|] eqn:E; cbn [fst]; [|exact I].
     apply Forall_update; [exact I|]. cbn. intros C. apply wf_set_meaning. eapply (Forall_nth_error _ h c d I E), C.
+  - destruct (nth_error h a), (nth_error h b); exact I.
+  - destruct (nth_error h a) as [d|] eqn:E; cbn [fst]; [|exact I].
+    apply Forall_update; [exact I|]. cbn. intros C. apply wf_set_code. eapply (Forall_nth_error _ h a d I E), C.
+  - destruct (nth_error h a) as [d|] eqn:E; cbn [fst]; [|exact I].
+    apply Forall_update; [exact I|]. cbn. intros C. apply wf_set_scheme. eapply (Forall_nth_error _ h a d I E), C.
+  - destruct (nth_error h a) as [d|] eqn:E; cbn [fst]; [|exact I].
+    apply Forall_update; [exact I|]. cbn. intros C. apply wf_set_version. eapply (Forall_nth_error _ h a d I E), C.
+  - destruct (nth_error h a) as [d|] eqn:E; cbn [fst]; [|exact I].
+    pose proof (Forall_nth_error _ h a d I E) as Wd.
+    destruct (kid_of kids a) as [c|]; [destruct (nth_error h c) as [dc|] eqn:Ec|]; cbn [fst];
+      apply Forall_app; (split; [exact I|]).
+    + constructor; [exact Wd|]. constructor; [|constructor]. eapply (Forall_nth_error _ h c dc I Ec).
+    + constructor; [exact Wd|constructor].
+    + constructor; [exact Wd|constructor].
+  - destruct (nth_error h a); exact I.
   - destruct (nth_error h a), (nth_error h b); exact I.
 Qed.
 
@@ -349,7 +374,8 @@ Qed.
 
 Lemma step_kinv : forall srt st o, KInv st -> KInv (fst (step srt st o)).
 Proof.
-  intros srt [h kids] o K. destruct o as [v s m ver|x|x copy|d nested|a m|a m|a b]; cbn [step].
+  intros srt [h kids] o K.
+  destruct o as [v s m ver|x|x copy|d nested|a m|a m|a b|a k v|a s|a ver|a|a|a b]; cbn [step].
   - destruct (init v s m ver); cbn [fst]; [|exact K]. eapply KInv_weaken; [|exact K]. rewrite app_length. lia.
   - destruct x as [c|a].
     + destruct (from_code h (RCode c)) as [[h' r]|k] eqn:E; cbn [fst]; [|exact K].
@@ -369,6 +395,16 @@ Proof.
   - destruct (nth_error h a); cbn [fst]; [|exact K]. eapply KInv_weaken; [|exact K]. rewrite length_update. lia.
   - destruct (kid_of kids a) as [c|]; [|exact K].
     destruct (nth_error h c); cbn [fst]; [|exact K]. eapply KInv_weaken; [|exact K]. rewrite length_update. lia.
+  - destruct (nth_error h a), (nth_error h b); exact K.
+  - destruct (nth_error h a); cbn [fst]; [|exact K]. eapply KInv_weaken; [|exact K]. rewrite length_update. lia.
+  - destruct (nth_error h a); cbn [fst]; [|exact K]. eapply KInv_weaken; [|exact K]. rewrite length_update. lia.
+  - destruct (nth_error h a); cbn [fst]; [|exact K]. eapply KInv_weaken; [|exact K]. rewrite length_update. lia.
+  - destruct (nth_error h a) as [d|]; cbn [fst]; [|exact K].
+    destruct (kid_of kids a) as [c|]; [destruct (nth_error h c) as [dc|]|]; cbn [fst].
+    + eapply (KInv_add h); eauto; rewrite ?app_length; cbn [length]; lia.
+    + eapply KInv_weaken; [|exact K]. rewrite app_length. lia.
+    + eapply KInv_weaken; [|exact K]. rewrite app_length. lia.
+  - destruct (nth_error h a); exact K.
   - destruct (nth_error h a), (nth_error h b); exact K.
 Qed.
 
